@@ -57,7 +57,10 @@ pub struct Interpreter<TStdlib: Stdlib, TStdIn: Input, TStdOut: Printer, TLpt1: 
     return_address_stack: Vec<usize>,
 
     /// Holds addresses to RETURN to after a GOSUB
-    go_sub_address_stack: Vec<usize>,
+    /// The pending GOSUBs: the address of the GOSUB instruction and the call depth
+    /// (the number of active subprogram calls) at which it was executed.
+    /// A RETURN only answers a GOSUB of its own activation.
+    go_sub_address_stack: Vec<(usize, usize)>,
 
     /// Holds the current call stack
     stacktrace: Vec<Position>,
@@ -484,14 +487,24 @@ impl<TStdlib: Stdlib, TStdIn: Input, TStdOut: Printer, TLpt1: Printer>
             }
             Instruction::PopRet => {
                 let address = self.return_address_stack.pop().unwrap();
+                // the GOSUBs the ending subprogram did not return from end with it
+                let call_depth = self.return_address_stack.len();
+                while matches!(self.go_sub_address_stack.last(), Some((_, depth)) if *depth > call_depth)
+                {
+                    self.go_sub_address_stack.pop();
+                }
                 ctx.opt_next_index = Some(address);
             }
             Instruction::GoSub(address_or_label) => {
-                self.go_sub_address_stack.push(i);
+                self.go_sub_address_stack
+                    .push((i, self.return_address_stack.len()));
                 ctx.opt_next_index = Some(address_or_label.address());
             }
-            Instruction::Return(opt_address) => match self.go_sub_address_stack.pop() {
-                Some(address) => {
+            Instruction::Return(opt_address) => match self.go_sub_address_stack.last() {
+                // only a GOSUB of the current activation can be returned from
+                Some((address, depth)) if *depth == self.return_address_stack.len() => {
+                    let address = *address;
+                    self.go_sub_address_stack.pop();
                     ctx.opt_next_index = Some(match opt_address {
                         Some(address_or_label) => address_or_label.address(),
                         _ => address + 1,
